@@ -54,7 +54,7 @@ impl ASNTag for Boolean {
 //@lift name=Boolean::into_structure file=lber/src/structures/boolean.rs impl="impl\s+ASNTag\s+for\s+Boolean\s*\{" fn=into_structure canary=skip
 //@ ret r
 //@ tail last
-        proof { assert(verif_ret.payload->P_0@ =~= (if self.inner { seq![0xffu8] } else { seq![0x00u8] })); }
+        proof { assert(verif_ret.payload->P_0@ =~= (if self.inner { seq![0xffu8] } else { seq![0x00u8] })); } //# C07.boolean_contents_are_ff_or_00
 //@ spec
 //@end
 }
